@@ -394,7 +394,8 @@ def r2_queries(repo, rep):
   g4, rd4, effs4 = function_effects(init)
   for e, recv, c in effs4:
     if c.startswith('param:'):
-      ok = e.kind == 'attr-store' and recv == 'data' and e.attr == 'df' and '.iloc[' in norm(e.value or ast.Constant(0))
+      val_ = rd4.expand(e.node, e.value, keep=tuple(init.params))[0] if e.value is not None and getattr(e, 'node', None) is not None else e.value
+      ok = e.kind == 'attr-store' and recv == 'data' and e.attr == 'df' and ('.iloc[' in norm(e.value or ast.Constant(0)) or '.iloc[' in norm(val_ or ast.Constant(0)))
       rep.check(ok, 'R5/inputs', 'constructor only narrows data.df to the analysis window', init.qualname, norm(e.stmt)[:120],
                 'TBRMatchedMarkets.__init__ modifies its argument: %s' % norm(e.stmt)[:100], init.loc(e.stmt))
 
@@ -451,10 +452,15 @@ def r3_r4_results(repo, rep):
       v = inst[0][0].value
       d = rd.single_def(inst[0][0].node, v.id) if isinstance(v, ast.Name) else None
       good = d is not None and d.node is allocs[0]
-    rep.check(good, 'R4/fresh-heap', '%s allocates a heap and installs it once as _search_results' % name, f.qualname,
-              '%d HeapDict allocation(s), %d store(s) to self._search_results' % (len(allocs), len(inst)),
-              '%s does not work on a heap of its own (allocations: %d, installs: %d): results of earlier searches on the same object leak into later ones'
-              % (name, len(allocs), len(inst)), f.loc())
+    if not good and not allocs:
+      rep.absent(f, 'R4/fresh-heap', f.qualname, '%d HeapDict allocation(s), %d store(s) to self._search_results' % (len(allocs), len(inst)),
+                 '%s does not work on a heap of its own (allocations: %d, installs: %d): results of earlier searches on the same object leak into later ones'
+                 % (name, len(allocs), len(inst)), f.loc(), subject='%s allocates a heap and installs it once as _search_results' % name)
+    else:
+      rep.check(good, 'R4/fresh-heap', '%s allocates a heap and installs it once as _search_results' % name, f.qualname,
+                '%d HeapDict allocation(s), %d store(s) to self._search_results' % (len(allocs), len(inst)),
+                '%s does not work on a heap of its own (allocations: %d, installs: %d): results of earlier searches on the same object leak into later ones'
+                % (name, len(allocs), len(inst)), f.loc())
     for n in g.nodes:
       for ex in ([n.ast] if n.kind == 'stmt' else []):
         for call in au.calls_in(ex):
